@@ -246,6 +246,16 @@ def symbolic_trace(rng):
             seq = [{"ev": "restore", "slot": len(run.slots)}, {"ev": "update_all"}, {"ev": "set_auto", "b": True}]
             ops += seq
             ev += [run.op(o) for o in seq]
+        elif len(vals) >= 2 and 0.62 <= r < 0.74:
+            # an assignment left pending (auto-update off), auto-update switched on again without an update, then an
+            # assignment to *another* value: "setting a value triggers an update of the model", the totals are complete
+            a, b = rng.sample(vals, 2)
+            seq = [{"ev": "set_auto", "b": False},
+                   {"ev": "assign", "n": a, "x": rng.choice("abc") + str(rng.randint(4, 6)), "via_var": rng.random() < 0.5},
+                   {"ev": "set_auto", "b": True},
+                   {"ev": "assign", "n": b, "x": rng.choice("abc") + str(rng.randint(7, 9)), "via_var": rng.random() < 0.5}]
+            ops += seq
+            ev += [run.op(o) for o in seq]
         elif vals and 0.4 <= r < 0.5:
             ops.append({"ev": "failed_simulate"})
             ev.append(run.failed_simulate())
